@@ -296,7 +296,10 @@ namespace adept {
       if (!gradients_are_initialized()) {
 	initialize_gradients();
       }
-      if (end_plus_one > max_gradient_) {
+      // The gradient vector holds exactly the number of gradients
+      // that existed when it was initialized; objects created since
+      // then lie beyond it even though max_gradient_ has grown
+      if (end_plus_one > n_allocated_gradients_) {
 	throw gradient_out_of_range();
       }
       for (uIndex i = start, j = 0; i < end_plus_one; i++, j++) {
@@ -315,7 +318,10 @@ namespace adept {
       if (!gradients_are_initialized()) {
 	throw gradients_not_initialized();
       }
-      if (end_plus_one > max_gradient_) {
+      // The gradient vector holds exactly the number of gradients
+      // that existed when it was initialized; objects created since
+      // then lie beyond it even though max_gradient_ has grown
+      if (end_plus_one > n_allocated_gradients_) {
 	throw gradient_out_of_range();
       }
       for (uIndex i = start, j = 0; i < end_plus_one; i++, j++) {
@@ -330,7 +336,10 @@ namespace adept {
       if (!gradients_are_initialized()) {
 	throw gradients_not_initialized();
       }
-      if (end_plus_one > max_gradient_) {
+      // The gradient vector holds exactly the number of gradients
+      // that existed when it was initialized; objects created since
+      // then lie beyond it even though max_gradient_ has grown
+      if (end_plus_one > n_allocated_gradients_) {
 	throw gradient_out_of_range();
       }
       for (uIndex i = start, j = 0; i < end_plus_one; i+=src_stride, j+=target_stride) {
